@@ -172,7 +172,9 @@ class _BorrowOps:
         if value == "SELF":
             return env.get("@f:" + name, ("unset", name))
         if value == "ITER" or (isinstance(value, tuple) and value[:1] in (("gen",), ("gen?",))):
-            return ("meth", value, name)
+            if name in ("__anext__", "__aiter__", "asend", "athrow", "aclose"):
+                return ("meth", value, name)
+            return UNKNOWN  # state of the object (ag_frame, ag_running, ...): not known statically
         return UNKNOWN
 
     def call(self, func, args, kwargs, node, env):
